@@ -472,3 +472,78 @@ class execute:
         return c.And(c.n_events() == 3, ev_kind(c, 0, "run_payload"), _payload_call_event(c, payload, args, kwargs, 1), c.event_at(2) == c.event("raised", payload, exc))
 
     raises = {"BaseException": _r}
+
+
+# ================================================================================ registration (C03)
+@contract(RUN + "base_runner:BaseRunner.register_payload", props=["C03"], skip_body=True, kind="abstract")
+class base_register_payload:
+    """interface of runner.register_payload(payload): hands the payload to the runner exactly once (one `register_payload`
+    event) and RAISES NOTHING (verified per runner below)"""
+    params = dict(self=BaseR, payload=TAny())
+    has_events = True
+
+    def emits(c, ctx, self, payload):
+        ctx.emit("register_payload", self, payload)
+
+
+@contract(RUN + "thread_runner:ThreadRunner.register_payload", props=["C03", "C02", "C11"])
+class thread_register:
+    """one fresh DAEMON thread per payload, running the monitor wrapper on it; the thread is never joined"""
+    params = dict(self=ThreadR, payload=Payload)
+    has_events = True
+
+    def ensures(c, self, payload):
+        return {"exactly-one-daemon-thread-running-the-monitor-on-the-payload": c.events_are(
+            c.event("thread.start", c.bound_method(self, RUN + "thread_runner:ThreadRunner._monitor_payload"), payload, True))}
+
+
+@contract(RUN + "asyncio_runner:AsyncioRunner.register_payload", props=["C03", "C11"])
+class asyncio_register:
+    """threadsafe hand-over to the loop thread: _setup_payload(payload) is scheduled exactly once on the runner's own loop"""
+    params = dict(self=AsyncR, payload=APayload)
+    has_events = True
+
+    def ensures(c, self, payload):
+        return {"scheduled-once-on-the-runners-loop": c.events_are(
+            c.event("call_soon_threadsafe", self.asyncio_loop, c.bound_method(self, RUN + "asyncio_runner:AsyncioRunner._setup_payload"), payload))}
+
+
+@contract(RUN + "asyncio_runner:AsyncioRunner._setup_payload", props=["C03", "C11"])
+class asyncio_setup:
+    params = dict(self=AsyncR, payload=APayload)
+    has_events = True
+
+    def ensures(c, self, payload):
+        e0 = c.event_at(0)
+        return {"one-task-running-the-monitor-on-the-payload-tracked-for-cancellation": c.And(
+            c.n_events() == 2, e0 == c.event("create_task", self.asyncio_loop, RUN + "asyncio_runner:AsyncioRunner._monitor_payload", self, payload),
+            ev_kind(c, 1, "tasks.add"), Event.e_a(c.event_at(1)) == self._tasks.t)}
+
+
+TrioR3 = TObj(RUN + "trio_runner:TrioRunner", asyncio_loop=ALoop, _logger=PyLogger, _stopped=TEvent, _ready=TAny(), _trio_token=TOpt(TRef()), _submit_tasks=TOpt(Chan))
+
+
+@contract(RUN + "trio_runner:TrioRunner.register_payload", props=["C03", "C11"])
+class trio_register:
+    """the payload is sent into the trio thread exactly once, or - only when the trio run is over, cancelled or its channel
+    already closed (the runtime is shutting down) - discarded; NOTHING is raised in any of these states"""
+    params = dict(self=TrioR3, payload=APayload)
+    has_events = True
+
+    def requires(c, self, payload):
+        # published-state invariant of a runner reachable through MetaRunner._runners: token and channel are set
+        return c.And(self._trio_token != None, self._submit_tasks != None)
+
+    def ensures(c, self, payload):
+        ch, tok = self._submit_tasks, self._trio_token
+        sent, failed = c.event("chan.send", ch, payload), c.event("chan.send-failed", ch, payload)
+        in_trio, same = c.event("in-trio-thread", tok), c.event("from_thread.run-same-thread", tok)
+        return {
+            "sent-exactly-once-or-discarded-only-because-the-trio-side-is-finishing": c.Or(
+                c.events_are(in_trio, sent),                                   # handed over from another thread
+                c.events_are(same, sent),                                      # called inside the trio thread: sent directly
+                c.events_are(c.event("from_thread.run-finished", tok)),        # trio run is over: discarded
+                c.events_are(c.event("from_thread.run-cancelled", tok)),       # cancelled: discarded
+                c.events_are(in_trio, failed), c.events_are(same, failed)),    # channel already closed (shutting down): discarded
+        }
+    # raises = {}: adopt must not raise, also while trio is finishing its payloads' cleanup
